@@ -95,6 +95,9 @@ def run_check(prop, sd, extra_props=()):
         sh("git -C /repo checkout -- .")
         rc, out = sh("git -C /repo status --porcelain")
         assert out.strip() == "", "/repo not restored: " + out
+        # put the generated models back to the unseeded source at once (other people build against them)
+        sh("./gen -repo /repo -out %s/coq/Generated -config %s/gen/config.json" % (VERIF, VERIF), cwd=os.path.join(VERIF, "gen"))
+        sh("timeout 600 make -j8 Generated/JsonParseGen.vo Generated/ProtoGen.vo Generated/Iso8601Gen.vo Generated/AsciiGen.vo", cwd=os.path.join(VERIF, "coq"))
         ENV.pop("VERIF_LOCK_HELD", None)
         lk.close()
     return results
